@@ -1,5 +1,7 @@
 //! Per-property scenario generators, runners (oracles) and shrinkers.
 
+pub mod archive;
+pub mod c01;
 pub mod c03;
 pub mod c04;
 
@@ -22,14 +24,16 @@ pub struct Doc {
 pub enum Body {
     C04(c04::C04Doc),
     C03(c03::C03Doc),
+    C01(c01::C01Doc),
 }
 
-pub const PROPS: [&str; 2] = ["C03", "C04"];
+pub const PROPS: [&str; 3] = ["C01", "C03", "C04"];
 
 pub fn generate(prop: &str, seed: u64, tier: Tier) -> Doc {
     match prop {
         "C04" => c04::generate(seed, tier),
         "C03" => c03::generate(seed, tier),
+        "C01" => c01::generate(seed, tier),
         _ => panic!("HARNESS: unknown property {}", prop),
     }
 }
@@ -39,6 +43,7 @@ pub fn directed(prop: &str) -> Vec<Doc> {
     match prop {
         "C04" => c04::directed(),
         "C03" => c03::directed(),
+        "C01" => c01::directed(),
         _ => vec![],
     }
 }
@@ -47,6 +52,7 @@ pub fn run_doc(doc: &Doc, trace: bool) -> RunResult {
     match &doc.body {
         Body::C04(b) => c04::run(doc, b, trace),
         Body::C03(b) => c03::run(doc, b, trace),
+        Body::C01(b) => c01::run(doc, b, trace),
     }
 }
 
@@ -90,6 +96,13 @@ pub fn shrink_candidates(doc: &Doc) -> Vec<Doc> {
                 out.push(d);
             }
         }
+        Body::C01(b) => {
+            for nb in c01::shrink(b) {
+                let mut d = doc.clone();
+                d.body = Body::C01(nb);
+                out.push(d);
+            }
+        }
         Body::C03(b) => {
             for nb in c03::shrink(b) {
                 if !c03::well_formed(&nb) {
@@ -108,6 +121,7 @@ pub fn probe_names(prop: &str) -> &'static [&'static str] {
     match prop {
         "C04" => &c04::PROBES,
         "C03" => &c03::PROBES,
+        "C01" => &c01::PROBES,
         _ => &[],
     }
 }
@@ -117,6 +131,7 @@ pub fn mandatory_probes(prop: &str) -> Vec<usize> {
     match prop {
         "C04" => (0..c04::PROBES.len()).collect(),
         "C03" => (0..c03::PROBES.len()).collect(),
+        "C01" => (0..c01::PROBES.len()).collect(),
         _ => vec![],
     }
 }
